@@ -1340,6 +1340,9 @@ class LogixDriver(CIPDriver):
                 if _bit_type is None or not getattr(_bit_type, "size", 0) or not 0 <= bit < _bit_type.size * 8:
                     raise RequestError(f"Invalid bit number for {tag_info['data_type_name']}: {request_tag}")
 
+            if elements < 0:  # checked here as well, the element count of a BOOL array is replaced by a count of DWORDs below
+                raise RequestError(f"Invalid element count: {elements}")
+
             if tag_info["data_type"] == "DWORD":
                 _tag, idx = util.get_array_index(tag)
                 if idx is not None:
